@@ -135,7 +135,14 @@ func c10R1b(c *Ctx) {
 			cnt[c.fnName(fn)+short]++
 			key := fmt.Sprintf("err:%s:%s#%d", c.fnName(fn), short, cnt[c.fnName(fn)+short])
 			// the connection idiom is handled elsewhere
-			if isConnectCall(call) && strings.HasSuffix(c.fnName(fn), "prepareExprDependencies") {
+			if isConnectCall(call) && func() bool {
+				for _, n := range c.tableNames(fn) {
+					if strings.HasSuffix(n, "prepareExprDependencies") {
+						return true
+					}
+				}
+				return false
+			}() {
 				c.ok(rule, key, c.instrPos(call), "connection error handled by the errors.As idiom (C02.R2)", false)
 				return
 			}
@@ -183,7 +190,7 @@ func c10R2(c *Ctx) {
 		if fn == nil {
 			return nil
 		}
-		eachInstr(fn, func(r instrRef) {
+		c.eachInstrLogical(fn, func(r instrRef) {
 			cc := callCommon(r.I)
 			if cc == nil {
 				return
